@@ -246,8 +246,8 @@ def run_softmax(ctx, t, case, rng):
 
 def run(ctx):
     rng = ctx.rng(1)
-    nrep = 14 if ctx.tier == "quick" else 120
-    npts = 160 if ctx.tier == "quick" else 1500
+    nrep = 14 if ctx.tier == "quick" else 400
+    npts = 160 if ctx.tier == "quick" else 3000
     for it0 in range(nrep):
         it = it0 * ctx.nshards + ctx.shard
         for name in tr.CLASSES:
